@@ -71,10 +71,12 @@ func init() {
 func isWordStart(c byte) bool {
 	return c == '_' || (c >= 'a' && c <= 'z') || (c >= 'A' && c <= 'Z') || c >= 0x80
 }
-func isWordChar(c byte) bool  { return isWordStart(c) || (c >= '0' && c <= '9') || c == '$' }
-func isDigit(c byte) bool     { return c >= '0' && c <= '9' }
-func isHexDigit(c byte) bool  { return isDigit(c) || (c >= 'a' && c <= 'f') || (c >= 'A' && c <= 'F') }
-func isWhitespace(c byte) bool { return c == ' ' || c == '\t' || c == '\n' || c == '\r' || c == '\f' || c == '\v' }
+func isWordChar(c byte) bool { return isWordStart(c) || (c >= '0' && c <= '9') || c == '$' }
+func isDigit(c byte) bool    { return c >= '0' && c <= '9' }
+func isHexDigit(c byte) bool { return isDigit(c) || (c >= 'a' && c <= 'f') || (c >= 'A' && c <= 'F') }
+func isWhitespace(c byte) bool {
+	return c == ' ' || c == '\t' || c == '\n' || c == '\r' || c == '\f' || c == '\v'
+}
 
 // Lex splits sql into tokens following ClickHouse's Lexer.cpp. Whitespace is
 // dropped, comments are kept as TokComment tokens. An unterminated string
